@@ -1221,6 +1221,8 @@ var (
 	classes   = h.Prop[Case]{Name: "classes", Gen: gen, Run: run}
 	permGrid  = h.Prop[Case]{Name: "permutation-grid", Run: run}
 	redefGrid = h.Prop[Case]{Name: "redefinition-grid", Run: run}
+	// every DAG of 5 classes with a fifth of the permutations: a sample, not an exhaustive space
+	permSample = h.Prop[Case]{Name: "permutation-sample", Run: run}
 )
 
 func TestC12(t *testing.T) {
@@ -1231,14 +1233,18 @@ func TestC12(t *testing.T) {
 		"Oracle = reference model internal/refclos (precedence, effective slots, accessor resolution) written from the property statement. " +
 		"Non-trivial: (some form names a superclass that is not defined yet) and (some slot is defined by >= 3 classes of one precedence list, or an initarg names two different slots of a class), " +
 		"or a class is redefined while it has subclasses. Distinct by the whole case (history, makes, probes). " +
-		"The grids enumerate every DAG of n classes (class i inherits from an ordered subset of classes 0..i-1) x every permutation of the forms x 3 slot templates, " +
-		"and every DAG x every class x a fixed list of redefinitions x {canonical, reversed} order x {queried before the redefinition or not}.")
+		"permutation-grid: every DAG of n classes (class i inherits from an ordered subset of classes 0..i-1), n = 2..3 (quick) / 2..4 (thorough), x 3 slot templates x every permutation of the forms, " +
+		"instances for every subset of the initargs of the last class; plus n = 4 in quick: every DAG x one template x every permutation, one instance per class. " +
+		"permutation-sample (thorough): every DAG of 5 classes x one template x 24 of the 120 permutations. " +
+		"redefinition-grid: every DAG (n = 2..3 quick, 2..4 thorough) x 3 templates x every class x a fixed list of redefinitions (superclasses reversed, first dropped, each other class added in front or at the end, " +
+		"slot added, slot removed, initform toggled) x {canonical, reversed} order x {queried before the redefinition or not}.")
 	h.Assume("internal/refclos encodes the precedence rule of the property statement (direct superclasses in written order, then theirs), not the CLOS topological sort")
 	h.Assume("a writer is called as (writer object value), the argument order slip's suite pins; initforms are integer literals; slots have instance allocation; no :default-initargs, no :type")
 	h.Assume("instances made before a redefinition are not examined afterwards (slip documents that they keep the old class)")
 
 	h.RunProp(t, permGrid, 0)
 	h.RunProp(t, redefGrid, 0)
+	h.RunProp(t, permSample, 0)
 	h.RunProp(t, classes, h.N(3000, 60000))
 
 	maxN := 3
@@ -1250,33 +1256,58 @@ func TestC12(t *testing.T) {
 		count++
 		return (count-1)%h.C.NShards == h.C.Shard
 	}
-	h.Enumerate(t, permGrid, func(yield func(Case) bool) {
-		for n := 2; n <= maxN+1; n++ {
-			perms := permutations(n)
-			ok := true
-			dags(n, func(sup [][]int) bool {
-				for tpl := 0; tpl < nTemplates; tpl++ {
-					if n > maxN && tpl != (len(sup[n-1])+len(sup[1]))%nTemplates {
-						continue // the largest size takes one template per DAG
+	// permutation grid. Sizes up to maxN: every DAG x 3 templates x every permutation, instances for every
+	// initarg subset. Size maxN+1: every DAG x one template (chosen by the DAG) x every permutation (quick) or
+	// 24 of the 120 permutations (thorough, n = 5; reported as the separate, non-exhaustive sub-property
+	// permutation-sample), one instance per class.
+	permCases := func(n int, sample bool, yield func(Case) bool) {
+		perms := permutations(n)
+		di := 0
+		dags(n, func(sup [][]int) bool {
+			di++
+			for tpl := 0; tpl < nTemplates; tpl++ {
+				if n > maxN && tpl != (len(sup[n-1])+len(sup[1]))%nTemplates {
+					continue
+				}
+				defs := gridDefs(tpl, sup)
+				for pi, p := range perms {
+					if sample && (pi+di)%5 != 0 {
+						continue
 					}
-					defs := gridDefs(tpl, sup)
-					for _, p := range perms {
-						if !mine() {
-							continue
-						}
-						if !yield(gridCase(defs, p, n <= maxN)) {
-							ok = false
-							return false
-						}
+					if !mine() {
+						continue
+					}
+					if !yield(gridCase(defs, p, n <= maxN)) {
+						return false
 					}
 				}
-				return true
-			})
-			if !ok {
-				return
 			}
+			return true
+		})
+	}
+	h.Enumerate(t, permGrid, func(yield func(Case) bool) {
+		stop := false
+		for n := 2; n <= maxN+1 && !stop; n++ {
+			if n == 5 {
+				break
+			}
+			permCases(n, false, func(c Case) bool {
+				if !yield(c) {
+					stop = true
+				}
+				return !stop
+			})
 		}
 	})
+	if h.Thorough() && h.C.ReplayIn == "" {
+		viol := 0
+		permCases(5, true, func(c Case) bool {
+			if !h.One(t, permSample, c) {
+				viol++
+			}
+			return viol < 3
+		})
+	}
 	h.Enumerate(t, redefGrid, func(yield func(Case) bool) {
 		for n := 2; n <= maxN; n++ {
 			ok := true
